@@ -315,6 +315,37 @@ def colliding_op_families() -> list[tuple[list[Any], list[str], list[Any]]]:
             keep.append(ops)
             vid: dict[int, int] = {}
             out.append(([OperationInfo(o) for o in ops], [f"{label} {v}" for v in vals], [op_payload(o, vid) for o in ops]))
+    # the other components of a CSE key: operands, result types, discardable attributes vs properties, regions
+    prod = test.TestOp(result_types=[builtin.i32, builtin.i32, builtin.i64])
+    a, b2, c = prod.results
+    variants = [
+        ("operands a,b", lambda: test.TestOp(operands=[a, b2], result_types=[builtin.i32])),
+        ("operands a,b again", lambda: test.TestOp(operands=[a, b2], result_types=[builtin.i32])),
+        ("operands b,a", lambda: test.TestOp(operands=[b2, a], result_types=[builtin.i32])),
+        ("operands a,a", lambda: test.TestOp(operands=[a, a], result_types=[builtin.i32])),
+        ("operands a", lambda: test.TestOp(operands=[a], result_types=[builtin.i32])),
+        ("result i64", lambda: test.TestOp(operands=[a, b2], result_types=[builtin.i64])),
+        ("two results", lambda: test.TestOp(operands=[a, b2], result_types=[builtin.i32, builtin.i32])),
+        ("no result", lambda: test.TestOp(operands=[a, b2])),
+        ("attr x=1", lambda: test.TestOp(operands=[a, b2], result_types=[builtin.i32], attributes={"x": builtin.IntAttr(1)})),
+        ("prop x=1", lambda: test.TestOp(operands=[a, b2], result_types=[builtin.i32], properties={"x": builtin.IntAttr(1)})),
+        ("attr y=1", lambda: test.TestOp(operands=[a, b2], result_types=[builtin.i32], attributes={"y": builtin.IntAttr(1)})),
+        ("attr x=1,y=2", lambda: test.TestOp(operands=[a, b2], result_types=[builtin.i32], attributes={"x": builtin.IntAttr(1), "y": builtin.IntAttr(2)})),
+        ("attr y=2,x=1", lambda: test.TestOp(operands=[a, b2], result_types=[builtin.i32], attributes={"y": builtin.IntAttr(2), "x": builtin.IntAttr(1)})),
+        ("attr x=2,y=1", lambda: test.TestOp(operands=[a, b2], result_types=[builtin.i32], attributes={"x": builtin.IntAttr(2), "y": builtin.IntAttr(1)})),
+    ]
+    keep.append([prod])
+    built = []
+    for label, mk in variants:
+        try:
+            built.append((mk(), label))
+        except Exception:  # noqa: BLE001
+            continue
+    for k in range(0, len(built), 7):
+        grp = built[k:k + 7] + built[:2]
+        keep.append([o for o, _ in grp])
+        vid2: dict[int, int] = {}
+        out.append(([OperationInfo(o) for o, _ in grp], [f"test.op {lab}" for _, lab in grp], [op_payload(o, vid2) for o, _ in grp]))
     colliding_op_families.keep = keep  # type: ignore[attr-defined]
     return out
 
